@@ -260,6 +260,9 @@ struct StressCase {
     docs: Vec<SVal>,
     queries: Vec<Cps>,
     table: Vec<StressRow>,
+    /// strings that are not queries
+    #[serde(default)]
+    storm: Vec<Cps>,
 }
 
 /// Many real threads, released together, first thing in a fresh process: every thread evaluates every row through every
@@ -269,6 +272,39 @@ fn check_stress(c: &StressCase, rounds: usize, out: &mut Out, stats: &mut HashMa
     let queries: std::sync::Arc<Vec<String>> = std::sync::Arc::new(c.queries.iter().map(|q| cps_to_string(q)).collect());
     let docs: std::sync::Arc<Vec<Value>> = std::sync::Arc::new(c.docs.iter().map(|d| d.to_value()).collect());
     let table: std::sync::Arc<Vec<StressRow>> = std::sync::Arc::new(c.table.clone());
+    // before anything else, on THIS thread: every non-query is refused 1 500 times through the parser and through an entry
+    // point; afterwards every row still gets its result here (whatever a refusal leaves behind must not add up)
+    if !c.storm.is_empty() {
+        let mut refused = 0u64;
+        for round in 0..1500 {
+            for (k, b) in c.storm.iter().enumerate() {
+                let q = cps_to_string(b);
+                let r = guarded(|| if (round + k) % 2 == 0 { parse_json_path(&q).map(|_| 0usize).map_err(|e| e.to_string()) } else { docs[0].query(&q).map(|v| v.len()).map_err(|e| e.to_string()) });
+                match r {
+                    Ok(Err(_)) => refused += 1,
+                    other => {
+                        out.mismatch(json!({"kind":"mismatch","check":"stress","repr":"Value","id":c.id,"q":q,"what":format!("an invalid query string was not refused with Err (round {round}): {other:?}")}));
+                        return;
+                    }
+                }
+            }
+        }
+        *stats.entry("stress_refusals".into()).or_default() += refused;
+        let ams: Vec<AddrMap<Value>> = docs.iter().map(AddrMap::new).collect();
+        for row in table.iter() {
+            let op = SessOp { k: "eval".into(), e: "query_with_path".into(), q: row.q, d: row.d, v: SVal { t: "null".into(), b: false, m: 0, e: 0, f: false, s: vec![], kids: vec![], keys: vec![] } };
+            let ev = SessEv { ev: "return".into(), t: 0, op: op.clone(), locs: row.locs.clone(), paths: row.paths.clone(), applied: false, wpath: vec![] };
+            match sess_eval(&op, &docs[row.d - 1], &ams[row.d - 1], &queries, &[]) {
+                Ok(g) if sess_matches(&ev, &g) => {}
+                other => {
+                    out.mismatch(json!({"kind":"mismatch","check":"stress","repr":"Value","id":c.id,"q":queries[row.q - 1],
+                        "what":"after thousands of refused calls on this thread a valid query no longer returns its result",
+                        "detail": format!("{:?}", other.map(|g| (g.0.map(|l| l.len()), g.1.map(|p| p.into_iter().take(3).collect::<Vec<_>>()))))}));
+                    return;
+                }
+            }
+        }
+    }
     let nthreads = 8usize;
     let barrier = std::sync::Arc::new(std::sync::Barrier::new(nthreads));
     let entries = ["query_with_path", "query", "query_only_path", "prepared"];
